@@ -10,10 +10,12 @@ import (
 
 // ModelLine is one history printed by TLC (DigGen / DigTrace): the predictions.
 type ModelLine struct {
-	Ci   int      `json:"ci"`
-	Opt  cat.Opts `json:"opt"`
-	Hist []*Entry `json:"hist"`
-	Snap *Snap    `json:"snap"`
+	Ci     int        `json:"ci"`
+	Opt    cat.Opts   `json:"opt"`
+	Hist   []*Entry   `json:"hist"`
+	Snap   *Snap      `json:"snap"`
+	Viz    *VizPic    `json:"viz"`
+	VizErr *VizErrPic `json:"vizerr"`
 }
 
 // ReplayResult is the outcome of replaying one model history on the real code.
@@ -75,6 +77,8 @@ func Replay(c *cat.Catalog, ml *ModelLine, o ReplayOpts) *ReplayResult {
 		w := *want
 		if last {
 			w.Snap = ml.Snap
+			w.Viz = ml.Viz
+			w.VizErp = ml.VizErr
 		} else {
 			w.Snap = nil
 		}
